@@ -239,13 +239,42 @@ struct Scenario {
     seg: bool,
     dribble: bool,
     big: bool,
+    /// another client keeps the only server busy for longer than connect_timeout now and then:
+    /// some requests are refused with the pool error, and must then not reach a server at all
+    contention: bool,
 }
 
 fn run_scenario(sc: &Scenario, rep: &Report) -> Result<(), String> {
     let (mut cell, mut cfg) = simple_cell(&["primary"], sc.pool_size, &sc.mode);
-    cfg.gset("connect_timeout", "10000");
+    cfg.gset("connect_timeout", if sc.contention { "150" } else { "10000" });
     cell.start_pgcat(&cfg, &StartOpts::default())
         .map_err(|e| format!("start: {:?}", e))?;
+    let holder_stop = std::sync::Arc::new(std::sync::atomic::AtomicBool::new(false));
+    let holder = if sc.contention {
+        let addr = cell.addr();
+        let stop = holder_stop.clone();
+        let n_hold = sc.pool_size;
+        Some(std::thread::spawn(move || {
+            let mut conns: Vec<Conn> = (0..n_hold).filter_map(|k| Conn::connect(&addr, &StartupOpts::new(USER, "db", PASS).app(&format!("holder{}", k))).ok()).collect();
+            let mut n = 0;
+            while !stop.load(Ordering::SeqCst) {
+                n += 1;
+                for (k, c) in conns.iter_mut().enumerate() {
+                    let _ = c.query(&format!("BEGIN {}", tag(&format!("holder{}", k), &format!("holder{}.b{}", k, n), "")), 5000);
+                }
+                crate::util::sleep_ms(300);
+                for (k, c) in conns.iter_mut().enumerate() {
+                    let _ = c.query(&format!("COMMIT {}", tag(&format!("holder{}", k), &format!("holder{}.c{}", k, n), "")), 5000);
+                }
+                crate::util::sleep_ms(120);
+            }
+            for c in conns {
+                c.terminate();
+            }
+        }))
+    } else {
+        None
+    };
     if sc.seg {
         let c = &cell.mocks[0].ctl;
         c.seg_seed.store(sc.seed | 1, Ordering::SeqCst);
@@ -268,7 +297,8 @@ fn run_scenario(sc: &Scenario, rep: &Report) -> Result<(), String> {
             let mut out = vec![];
             for (_, st) in gen_requests(&mut rng, &cid, reqs, big) {
                 let r = run_step(&mut conn, &st, 60_000);
-                let bad = r.outcome != Outcome::Ok;
+                let refused = matches!(&r.outcome, Outcome::PoolerError(m) if m.contains("could not get connection from the pool"));
+                let bad = r.outcome != Outcome::Ok && !refused;
                 out.push(r);
                 if bad {
                     break;
@@ -281,6 +311,10 @@ fn run_scenario(sc: &Scenario, rep: &Report) -> Result<(), String> {
     let mut results = vec![];
     for h in handles {
         results.push(h.join().map_err(|_| "client thread panicked".to_string())??);
+    }
+    holder_stop.store(true, Ordering::SeqCst);
+    if let Some(h) = holder {
+        let _ = h.join();
     }
     // ---- oracle
     let events = cell.log.snapshot();
@@ -350,6 +384,20 @@ fn run_scenario(sc: &Scenario, rep: &Report) -> Result<(), String> {
             rep.eval(1);
             rep.count("requests_compared", 1);
             rep.set_add("request_kinds", &st.what);
+            if matches!(&st.outcome, Outcome::PoolerError(m) if m.contains("could not get connection from the pool")) && sc.contention {
+                // refused: the client was told the request failed; nothing of it may reach a server
+                rep.count("requests_refused_with_pool_error", 1);
+                // (pipelined requests share one tag between their parts: a refused first part says
+                // nothing about the later ones, which are served normally)
+                if !st.what.starts_with("pipelined") && (groups.contains_key(&st.qid) || events.iter().any(|e| matches!(&e.ev, Ev::MockMsg { qid: Some(q), .. } if *q == st.qid))) {
+                    rep.violation(
+                        &format!("C03|request_refused_with_pool_error_reached_a_server|kind={}", st.what),
+                        &format!("request {} ({}) was answered with the pool error and nevertheless arrived at a server", st.qid, st.what),
+                        json!({"qid": st.qid, "seed": sc.seed}),
+                    );
+                }
+                continue;
+            }
             if st.outcome != Outcome::Ok {
                 rep.violation(
                     &format!("C03|request_failed|kind={}|outcome={:?}", st.what, std::mem::discriminant(&st.outcome)),
@@ -422,7 +470,7 @@ pub fn run(tier: &str) -> i32 {
         "C03",
         tier,
         "exploration",
-        "request = one client request of a generated kind (row counts/widths across the 8196-byte thresholds, big rows, empty, multi-statement, notices/ParameterStatus/notifications, error mid-stream, COPY in/out/fail, extended batch, portal suspension, pipelined batches/queries) with random client and server write segmentation; oracle = byte equality client-sent vs server-received and server-written vs client-received per request; distinct = distinct (kind, reply length mod 8196, length/8196)",
+        "request = one client request of a generated kind (row counts/widths across the 8196-byte thresholds, big rows, empty, multi-statement, notices/ParameterStatus/notifications, error mid-stream, COPY in/out/fail, extended batch, portal suspension, pipelined batches/queries) with random client and server write segmentation, one scenario in eight with the pool held by other clients beyond connect_timeout (refused requests must not reach a server); oracle = byte equality client-sent vs server-received and server-written vs client-received per request; distinct = distinct (kind, reply length mod 8196, length/8196)",
     );
     rep.assume("statement caching off, no plugins, no custom commands in this workload: the permitted-difference set is empty");
     rep.assume("Flush (H) and FunctionCall (F) are outside the property's request shapes and not generated");
@@ -439,6 +487,7 @@ pub fn run(tier: &str) -> i32 {
             seg: i % 3 != 0,
             dribble: i % 9 == 1,
             big: thorough && i % 7 == 0,
+            contention: i % 8 == 5,
         })
         .collect();
     run_parallel(n, workers(), |i| {
